@@ -1093,6 +1093,10 @@ class LiveRun:
                 {"selectionId": sel, "side": ev.get("side", "BACK"), "orderType": "LIMIT", "limitOrder": {"size": 2.0, "price": 980.0 if ev.get("side", "BACK") == "BACK" else 1.02, "persistenceType": "LAPSE"}, "handicap": hc, "customerOrderRef": "%s-1399%015d" % (a.name_hash, self.n_sibling)},
                 {"customerStrategyRef": "simhost"},
             )
+            if ev.get("age"):
+                # the other instance placed it a while ago (it only shows up now, e.g. after a re-subscription)
+                b["placed"] -= int(ev["age"] * 1000)
+                self.res.faults["exchange.sibling_bet.placed_earlier"] += 1
             self.exchange.emit([b])
             self.res.faults["exchange.sibling_bet"] += 1
             mk = self.fw.markets.markets.get(m["id"])
@@ -1361,4 +1365,13 @@ LIVE_HOOKS = list(backtest.HOOKS) + ["api_call", "api_applied", "main_event", "q
 
 
 def run_scenario(scenario, monitor_classes, owner=None) -> core.Result:
-    return LiveRun(scenario, monitor_classes, owner=owner).execute()
+    from . import rt
+
+    rt.set_tz(scenario.get("tz"))
+    try:
+        res = LiveRun(scenario, monitor_classes, owner=owner).execute()
+    finally:
+        rt.set_tz(None)
+    if scenario.get("tz"):
+        res.faults["host.time_zone_not_utc"] += 1
+    return res
